@@ -270,7 +270,7 @@ def run(ctx):
     ctx.mc("MC_Output", "MC_Output.cfg", timeout=900, workers=8)
     fzf = ctx.build_fzf()
     rng = ctx.rng
-    nf, ns, na = ctx.pick((500, 36, 24), (6000, 300, 150))
+    nf, ns, na = ctx.pick((500, 36, 24), (40000, 1500, 600))
     fcases = [filter_case(ctx, fzf, rng, i) for i in range(nf)]
     scases = [session_case(rng, i) for i in range(ns)]
     acases = [auto_case(rng, i) for i in range(na)]
